@@ -8,10 +8,12 @@
                       && || !, `in` (list literal / list parameter / map parameter), map["key"].
    Definitions only; proofs are in CondProofs.v.
 
-   Numbers.  A float64 / big.Float value is a dyadic rational m * 2^e (fnum / bigf); a decimal
-   string is scanned exactly as math/big.Float.Parse(base 10, prec 64, ToNearestEven) does:
-   mantissa digits as an exact integer, then ONE correctly rounded multiplication / division by
-   the power of five (exact up to 5^27, the pow5 loop with its 128/192-bit roundings above). *)
+   Numbers.  A float64 / big.Float value is a dyadic rational m * 2^e (fnum / bigf).  A decimal
+   string is read as math/big.Float.Parse(base 10, prec 64, ToNearestEven) reads it: the syntax
+   (scan_number) yields (+-) mant * 2^e2 * 5^e5 with the mantissa digits as an exact integer, and
+   the value is that fraction correctly rounded once to 64 bits (round_frac; the power of five is
+   exact up to the table size 5^27 and pow5's 128/192-bit approximation beyond, coded_parts).
+   The property's reading (spec_convert) uses the same syntax and the exact fraction. *)
 From OFGA Require Export Base.Bytes.
 From Coq Require Export ZArith.
 Open Scope Z_scope.
